@@ -39,6 +39,7 @@ class Hooks:
         self.proposals = 0         # outer proposals drawn (budget)
         self._saved = []
         self._depth = 0
+        self._member_draws = 0
 
     def emit(self, event, *a, **kw):
         self.counts[event] = self.counts.get(event, 0) + 1
@@ -156,6 +157,18 @@ class Hooks:
                 hooks.handed_out += len(r)
             return r
         self._patch(NautilusBound, 'sample', nb_sample)
+
+        from nautilus.bounds import Ellipsoid
+        o_es = Ellipsoid.sample
+
+        def e_sample(self, n_points=100):
+            # budget enforcement inside the refill loops of Union.sample / NautilusBound.sample (a union that lies
+            # outside the unit cube would otherwise spin forever without ever returning to a wrapper)
+            hooks._member_draws += n_points
+            if hooks.budget is not None and hooks._member_draws > 4 * hooks.budget:
+                raise BudgetExceeded('proposal budget of %d exhausted inside a refill loop' % hooks.budget)
+            return o_es(self, n_points)
+        self._patch(Ellipsoid, 'sample', e_sample)
 
         o_us = Union.sample
 
